@@ -146,8 +146,10 @@ Definition err_eqb (x y : err) : bool :=
 (* Verdict codes (0 = fine) for the step (e, o) observed after trace tr; [owner] is the primary owner of the
    destination when the step was processed (None: no owner).
      1  a message carrying a reply serial reached a connection that had no open call to its sender (C09)
-     2  a send produced something other than exactly one forward of that message or exactly one error to the sender (C05)
-     3  the forward went to a connection that is not the primary owner of the destination (C05)
+     2  a send produced something other than exactly one forward of that message (plus at most one copy per eavesdropping
+        connection, none for the addressed recipient) or exactly one error to the sender (C05)
+     3  the forward went to a connection that is not the primary owner of the destination, or a copy went to a connection
+        without a matching eavesdrop rule (C05)
      4  the NoReply errors are not exactly one per open call that ended by disconnect/timeout (C09)
      5  an unrequested reply was refused with something other than AccessDenied, or the refusal changed... (C09)
      6  a call was passed on although its sender already had max_replies open calls, not counting the one this very
@@ -156,13 +158,21 @@ Definition err_eqb (x y : err) : bool :=
      8  a message to an existing owner was refused without one of the reasons the documentation gives: unrequested reply
         under the restrictive policy (AccessDenied), fds (NotSupported), same serial still outstanding towards that
         callee (AccessDenied), max_replies_per_connection open calls (LimitsExceeded)  (C05 "is delivered", C09 "iff") *)
-Definition oracle_step (cf : cfg) (tr : trace) (owner : option N) (e : event) (o : out) : N :=
+Fixpoint has_dup (l : list N) : bool :=
+  match l with [] => false | x :: l' => existsb (N.eqb x) l' || has_dup l' end.
+
+(* [eaves]: the connections that hold an eavesdrop match rule matching this message (from the shared matcher of Routing.v;
+   match-rule semantics are property C07) *)
+Definition oracle_step (cf : cfg) (tr : trace) (owner : option N) (eaves : list N) (e : event) (o : out) : N :=
   let T := reply_timeout cf in
   match e with
   | ESend c m =>
       match o with
-      | [(r, OFwd f m')] =>
+      | (r, OFwd f m') :: copies =>
           if negb ((f =? c) && (m_token m' =? m_token m)) then 2
+          else if negb (forallb (fun x => match snd x with OEav f' m'' => (f' =? c) && (m_token m'' =? m_token m) | _ => false end) copies) then 2
+          else if existsb (fun x => fst x =? r) copies || has_dup (map fst copies) then 2      (* somebody got it twice *)
+          else if negb (forallb (fun x => existsb (N.eqb (fst x)) eaves) copies) then 3       (* copy to a connection not entitled to eavesdrop *)
           else match owner with
                | None => 3
                | Some w =>
